@@ -97,3 +97,66 @@ def register(reg, prog):
                  raises={'StopAsyncIteration': MAY, 'CancelledError': MAY, 'Exception': MAY}, modifies=['*'], at_exit=anext_exit,
                  awaits={0: {'havoc': True, 'result': ANY, 'raises': ['aiocoap.error:NotObservable', 'aiocoap.error:ObservationCancelled', 'aiocoap.error:NetworkError'],
                              'after': remember_future}})
+    _register_observation(reg, prog)
+
+
+def _register_observation(reg, prog):
+    """ClientObservation itself (elsewhere an opaque interface whose calls are logged): the terminal signal is remembered, so that a
+    consumer that starts listening after the end still gets it (C07 "ends exactly once ... with a network error"; C18 "every outstanding
+    ... observation terminates with a library error")"""
+    CO = 'aiocoap.protocol:ClientObservation'
+    P = ['C07', 'C18']
+    d = reg.classes['ObservationI']
+    d.fields.update({'callbacks': Opt(List(CALLABLE)), 'errbacks': Opt(List(CALLABLE)), 'cancelled': BOOL, '_on_cancel': List(CALLABLE),
+                     '_latest_response': Opt(Ref('Message')), '_cancellation_reason': Opt(Ref('builtins:Exception'))})
+    WF = '(self.errbacks is None) == self.cancelled and (self.callbacks is None) == self.cancelled'
+
+    def own_methods(ex, st, args):
+        # inside its own methods the observation is not an opaque collaborator: self.cancel() is the method below, by contract
+        d.opaque = False
+
+    def calls_since(s, snap):
+        return [e for e in s.log[len(snap.log):] if e[0] == 'call']
+
+    def cancel_step(ex, s, snap):
+        return [('one-cancellation-callback-per-round', B(len(calls_since(s, snap)) == 1))]
+
+    reg.contract(CO + '.cancel', self_class='ObservationI', properties=P, setup=own_methods, requires=[WF],
+                 raises={'AssertionError': 'self.cancelled'}, only_raises=True,
+                 invariants={0: ['self.cancelled and self.errbacks is None and self.callbacks is None']}, loop_steps={0: [cancel_step]},
+                 modifies=['self.errbacks', 'self.callbacks', 'self.cancelled', 'self._cancellation_reason', 'list:self._on_cancel'],
+                 ensures={'ended': 'self.cancelled and self.errbacks is None and self.callbacks is None',
+                          'no-reason-recorded-by-cancel-itself': 'self._cancellation_reason is None',
+                          'cancellation-callbacks-consumed': 'len(self._on_cancel) == 0'},
+                 ghost=lg('obs_cancel', 'self'))
+
+    def error_step(ex, s, snap):
+        new = calls_since(s, snap)
+        g = [('one-errback-per-round', B(len(new) == 1))]
+        for e in new:
+            g.append(('errback-gets-the-exception', ex.truth(s, ex.spec_val(s, 'a is exception', env=dict(ex.visible_env(s), a=e[2][0]))) if e[2] else B(False)))
+            g.append(('the-errback-of-this-round-is-called', e[1] == ex.spec_val(s, 'c', env=ex.visible_env(s)).t))
+        return g
+
+    reg.contract(CO + '.error', self_class='ObservationI', params={'exception': Ref('builtins:Exception')}, properties=P, setup=own_methods,
+                 requires=[WF], raises={'RuntimeError': 'self.errbacks is None'}, only_raises=True, loop_steps={0: [error_step]},
+                 modifies=['self.errbacks', 'self.callbacks', 'self.cancelled', 'self._cancellation_reason', 'list:self._on_cancel'],
+                 raises_post={'RuntimeError': {'an-ended-observation-is-left-alone': 'self._cancellation_reason is old(self._cancellation_reason) and self.cancelled'}},
+                 ensures={'ended': 'self.cancelled and self.errbacks is None',
+                          'the-terminal-error-is-remembered-for-late-listeners': 'self._cancellation_reason is exception'},
+                 local_types={'c': CALLABLE})
+
+    def errback_exit(ex, s, entry, env, result):
+        ev = Ev(ex, s, entry, env)
+        calls = [e for e in s.log if e[0] == 'call']
+        was = ev('old(self.cancelled)')
+        g = [('a-late-listener-is-called-at-once-exactly-once', was == B(len(calls) == 1)), ('otherwise-nothing-is-called', B(len(calls) <= 1))]
+        for e in calls:
+            g.append(('the-new-listener-is-the-one-called', e[1] == env['callback'].t))
+            g.append(('with-the-remembered-terminal-error', ev('a is old(self._cancellation_reason)', a=e[2][0]) if e[2] else B(False)))
+        g.append(('an-early-listener-is-queued', z3.Implies(z3.Not(was), ev('len(self.errbacks) == old(len(self.errbacks)) + 1 and self.errbacks[len(self.errbacks) - 1] is callback'))))
+        return g
+
+    reg.contract(CO + '.register_errback', self_class='ObservationI', params={'callback': CALLABLE, '_suppress_deprecation': BOOL}, properties=P, setup=own_methods,
+                 requires=[WF], only_raises=True, at_exit=errback_exit, modifies=['list:self.errbacks'],
+                 ensures={'state-kept': 'self.cancelled == old(self.cancelled) and self._cancellation_reason is old(self._cancellation_reason)'})
